@@ -59,7 +59,7 @@ pub const MODE_TRACED: u64 = 1;
 /// address is reused at once, as in an ordinary program
 pub const MODE_NO_QUARANTINE: u64 = 2;
 
-pub const CLASSES: u32 = 11;
+pub const CLASSES: u32 = 12;
 pub const C_UNIT: u32 = 0;
 pub const C_U8: u32 = 1;
 pub const C_U64: u32 = 2;
@@ -72,6 +72,9 @@ pub const C_BOOL: u32 = 7;
 pub const C_OPT_U32: u32 = 8;
 pub const C_STRING: u32 = 9;
 pub const C_RESULT_U8: u32 = 10;
+/// a result whose destructor panics; only ever used with a dropped handle, and the closure waits
+/// for the drop before it returns (the thread itself then has to dispose of the result)
+pub const C_DROP_PANICS: u32 = 11;
 
 pub const FATE_JOIN_NOW: u32 = 0;
 pub const FATE_JOIN_LATER: u32 = 1;
@@ -93,6 +96,7 @@ pub const fn class_name(c: u32) -> &'static str {
         8 => "option-u32",
         9 => "string",
         10 => "result-u8",
+        11 => "drop-panics",
         _ => "?",
     }
 }
